@@ -116,6 +116,18 @@ Definition clip (c : cell) (q : plane) : option cell :=
     end
   end.
 
+(* ---------- regularity of a construction (decidable): what the theorems of Proofs/Feasible.v assume.
+   Every vertex has three linearly independent planes, a cell returned unchanged really had no vertex on the negative
+   side, and every boundary cycle has at least three edges. *)
+Definition plane_det (p0 p1 p2 : plane) : Z := det3v (pn p0) (pn p1) (pn p2).
+Definition vertex_nondegb (ps : list plane) (v : vertex) : bool :=
+  let '(i, j, k) := vd v in negb (plane_det (getp ps i) (getp ps j) (getp ps k) =? 0).
+Definition clip_regularb (c : cell) (q : plane) (c' : cell) : bool :=
+  forallb (vertex_nondegb (cplanes c')) (cverts c') &&
+  (if Nat.eqb (length (cplanes c')) (length (cplanes c))
+   then forallb (fun v => 0 <=? side q (vloc v)) (cverts c)
+   else Nat.leb 3 (clen (ccycle c'))).
+
 (* a site: id, shift code (0 = no shift), position *)
 Definition site := (Z * Z * V3)%type.
 
@@ -144,6 +156,20 @@ Fixpoint build_loop (dim : Z) (g : V3) (sites : list site) (prev : Z) (c : cell)
 
 Definition build (dim : Z) (lo hi g : V3) (sites : list site) : option cell :=
   build_loop dim g sites 0 (cell_init lo hi).
+
+Fixpoint build_regularb (dim : Z) (g : V3) (sites : list site) (prev : Z) (c : cell) : bool :=
+  match sites with
+  | [] => true
+  | s :: rest =>
+    let d2 := dist2 g s in
+    if d2 <? prev then true else
+    let '(rn, rd) := max_radius2 dim g (cverts c) in
+    if 4 * rn <? d2 * rd then true
+    else match clip c (bisector g s) with
+         | None => true
+         | Some c' => clip_regularb c (bisector g s) c' && build_regularb dim g rest d2 c'
+         end
+  end.
 
 (* the brute-force oracle: no early termination *)
 Fixpoint build_all_loop (g : V3) (sites : list site) (c : cell) : option cell :=
